@@ -142,6 +142,8 @@ func init() {
 				Want  string `json:"want"`
 			}
 			jsonUnmarshal(data, &k)
+			differential = true // the differential runs compare the complete retained state
+			defer func() { differential = false }()
 			switch k.Kind {
 			case "dhcp":
 				return dhcpReplayer(data)
